@@ -9,13 +9,16 @@ const char* const H_PROPERTY = "C17";
 #define MAXIT 5
 static work_queue_t* wq_p; /* heap memory with arbitrary previous contents */
 #define wq (*wq_p)
-static int nth, nitems[MAXTH], yield_mask;
+static int nth, nall, nitems[MAXTH + 1], yield_mask;
+static int64_t preset; /* > 0: the main thread becomes the worker first and the counters are moved close to 2^32 under it */
+static pthread_t th[MAXTH];
+static void* thr(void* p);
 static uint64_t clk;
 /* ghost */
 static struct {
   uint64_t push_ret; /* stamp at which the push returned (0 = not yet) */
   int handed;
-} item[MAXTH][MAXIT];
+} item[MAXTH + 1][MAXIT];
 static struct {
   uint64_t start, end;
 } interval[64];
@@ -39,7 +42,7 @@ static NS int g_worker_begin(void) { return nint++; }
 static NS void g_handed(long v) {
   sim_tso_sync();
   int t = (int)(v >> 8) - 1, i = (int)(v & 0xff) - 1;
-  if (t < 0 || t >= nth || i < 0 || i >= nitems[t]) sim_violation("C17-invented-item", "get_work returned %#lx which was never pushed", v);
+  if (t < 0 || t >= nall || i < 0 || i >= nitems[t]) sim_violation("C17-invented-item", "get_work returned %#lx which was never pushed", v);
   if (item[t][i].handed) sim_violation("C17-handed-out-twice", "item %d of thread %d handed to a worker twice", i, t);
   item[t][i].handed = 1;
   handed_total++;
@@ -48,12 +51,18 @@ static NS void g_handed(long v) {
 static NS void g_empty(int iv, uint64_t invoked_at) {
   sim_tso_sync();
   /* EMPTY is illegal if an item whose push returned before this get_work was invoked is still queued */
-  for (int t = 0; t < nth; t++)
+  for (int t = 0; t < nall; t++)
     for (int i = 0; i < nitems[t]; i++)
       if (item[t][i].push_ret && item[t][i].push_ret < invoked_at && !item[t][i].handed)
         sim_violation("C17-empty-with-item-queued", "worker was told EMPTY although item %d of thread %d was pushed before it asked and has not been handed out", i, t);
   interval[iv].end = invoked_at; /* definitely active until the invocation of the call that returned EMPTY */
   sim_progress();
+}
+static NS void g_preset(void) {
+  sim_tso_sync();
+  wq.in_count += preset;
+  wq.out_count += preset;
+  preset = 0;
 }
 static void* thr(void* p) {
   const int t = (int)(intptr_t)p;
@@ -74,6 +83,12 @@ static void* thr(void* p) {
         }
         g_handed((long)out->data);
         free(out);
+        if (t == nth && preset > 0) {
+          /* this thread is the active worker and has been handed one item: what the two counters look like after
+           * `preset` more items went through without the worker ever finding the queue empty */
+          g_preset();
+          for (int k = 0; k < nth; k++) pthread_create(&th[k], NULL, thr, (void*)(intptr_t)k);
+        }
         if (yield_mask >> t & 1) sim_yield_point();
       }
     }
@@ -91,13 +106,21 @@ void h_run(void) {
     total += nitems[t];
   }
   yield_mask = wl_int(0, 255);
-  sim_describe("threads=%d items=%d preempt=1/%d", nth, total, c.preempt_inv);
+  nall = nth;
+  if (wl_pct(25)) { /* counters next to 2^32 (they only go back to zero when a worker finds the queue empty) */
+    preset = (1ll << 32) - 1 - wl_int(0, 4);
+    nitems[nth] = 1;
+    total += 1;
+    nall = nth + 1;
+  }
+  sim_describe("threads=%d items=%d counters_preset=%lld preempt=1/%d", nth, total, (long long)preset, c.preempt_inv);
   sim_nontrivial();
   wq_p = h_dirty_alloc(sizeof *wq_p);
   if (wl_pct(40)) sim_tso_enable_plain();
   work_queue_init(&wq);
-  pthread_t th[MAXTH];
-  for (int t = 0; t < nth; t++) pthread_create(&th[t], NULL, thr, (void*)(intptr_t)t);
+  if (preset > 0) thr((void*)(intptr_t)nth); /* pushes one item, becomes the worker, starts the others from inside */
+  else
+    for (int t = 0; t < nth; t++) pthread_create(&th[t], NULL, thr, (void*)(intptr_t)t);
   for (int t = 0; t < nth; t++) pthread_join(th[t], NULL);
   for (int a = 0; a < nint; a++) {
     if (!interval[a].end) sim_violation("C17-worker-never-finished", "worker interval %d has no end", a);
